@@ -90,6 +90,7 @@ def stream_expected(items, term):
 class C14(Prop):
     pid = "C14"
     lean_module = "RxModel.Props.C14"
+    extra_modules = ("RxModel.Props.C14T",)
     design_ref = "DESIGN.md §6 C14, §7 findings 2, 3"
     rule = ("bounded-exhaustive: kind in {to_future, to_stream, collect+to_future, complete_status} x "
             "flavor {local, threads} x source script (0..k distinct items, then complete / error / neither; "
@@ -120,6 +121,10 @@ class C14(Prop):
         rng = random.Random(seed)
         kmax = 3 if tier == "quick" else 4
         out = []
+        # wait_for_end racing with the producer at the hooked yield point (H3): the producer's
+        # terminal runs exactly between the waiter's flag check and its waker registration
+        out.append(Case("convert", "threads", [("kind", ["statusrace"]), ("model", [MODEL])],
+                        [["race", "c"], ["race", E(3)], ["race", "c"]], {"kind": "statusrace"}))
         scripts = []
         for k in range(kmax + 1):
             items = [N(i + 1) for i in range(k)]
@@ -184,6 +189,12 @@ class C14(Prop):
     # --------------------------------------------------------------- oracle
     def oracle(self, case, lines, model_lines=None):
         kind = case.field("kind")[0]
+        if kind == "statusrace":
+            for k in range(len(case.events)):
+                if lines.get(k) != "wait=returned":
+                    return {"kind": "lost-wakeup", "event": k,
+                            "detail": f"wait_for_end did not return although the source has terminated: {lines.get(k)}"}
+            return None
         done = False          # future resolved / stream ended: later polls are not judged
         yielded = 0
         for k, ev in enumerate(case.events):
